@@ -218,7 +218,9 @@ impl Parsable for Vec<token::Token> {
                 }
             }
             token::Value::BeginGroup(_) => {
-                finish_parsing_balanced_tokens(input, &mut result)?;
+                // TeX.2021.1226: the text of a token list assignment is absorbed without
+                // expansion (scan_toks(false, false)).
+                finish_parsing_balanced_tokens(input.unexpanded(), &mut result)?;
                 return Ok(result);
             }
             _ => "a non-command, non-opening brace token",
